@@ -156,11 +156,10 @@ def abs_nf(r, signs):
             out = out * Rat.var(satom('abs', Rat.var(v))) ** e
     if q.is_const():
         out = out * Rat.const(abs(q.constant()))
-    elif all(c > 0 for c in q.t.values()) and all(
-            signs.is_pos_var(v) for v in q.vars()):
+    elif poly_sign(q, signs) == 1 and 'I' not in q.vars():
+        # positive symbols and even powers of real symbols only
         out = out * Rat(q)
-    elif all(c < 0 for c in q.t.values()) and all(
-            signs.is_pos_var(v) for v in q.vars()):
+    elif poly_sign(q, signs) == -1 and 'I' not in q.vars():
         out = out * Rat(q) * -1
     else:
         # integer content of q
@@ -387,6 +386,12 @@ def equal_exact(a, b, witness=None):
 
 
 # --------------------------------------------------------------------------
+import cmath as _cm
+_CMATH = {k: getattr(_cm, k) for k in ('exp', 'log', 'sin', 'cos', 'tan',
+                                       'sinh', 'cosh', 'tanh', 'atan')}
+_CMATH['arctan'] = _cm.atan
+
+
 def num_eval(r, env, want_complex=False):
     """Floating point value of r; env maps plain variable names to numbers
     (missing names get a deterministic positive value)."""
@@ -404,6 +409,11 @@ def num_eval(r, env, want_complex=False):
                 return max(vals) if k == 'max' else min(vals)
             if k == 'norm':
                 return env['norm:%s' % (v[1],)]
+            if k in _CMATH and isinstance(v[1], Rat):
+                return _CMATH[k](ev(v[1]))
+            if k == 'sign' and isinstance(v[1], Rat):
+                z = ev(v[1]).real
+                return (z > 0) - (z < 0)
             raise Undecided('no numeric value for atom %r' % (v,))
         if v == 'I':
             return 1j
